@@ -96,8 +96,9 @@ func c13GID() int64 {
 type c13GInfo struct {
 	gid     int64
 	state   string
-	kind    string // park | spawn | select | wait | send | "" (not blocked)
+	kind    string // park | spawn | select | wait | send | cwait | "" (not blocked)
 	blocked bool
+	waiting bool // raw runtime state: not running / runnable / syscall
 }
 
 // A goroutine counts as blocked only in one of the four places where the traversal can really wait.
@@ -182,6 +183,7 @@ func c13ParseDump(b []byte) []c13GInfo {
 		}
 		gi.kind = c13BlockKind(gi.state, blk)
 		gi.blocked = gi.kind != ""
+		gi.waiting = gi.state != "running" && gi.state != "runnable" && gi.state != "syscall"
 		res = append(res, gi)
 	}
 	return res
@@ -875,5 +877,52 @@ func c13ChooseCompletion(internal c13Chooser, visits func(held []*c13G) *c13G) c
 			}
 		}
 		return 0
+	}
+}
+
+// c13Await waits for an uncontrolled call of the real code (result on done).  It returns early when the traversal is
+// certainly wedged: the same non-empty set of traversal goroutines, every one of them waiting, in four dumps 50 ms
+// apart (no goroutine of the traversal ever waits for time or I/O, so nothing can wake them).  Otherwise it gives the
+// call `max` (generous: the machine may be heavily loaded).
+func c13Await(done <-chan error, max time.Duration) (err error, returned bool, why string) {
+	deadline := time.After(max)
+	buf := make([]byte, 1<<16)
+	same, last := 0, ""
+	tick := time.NewTimer(200 * time.Millisecond)
+	defer tick.Stop()
+	for {
+		select {
+		case err = <-done:
+			return err, true, ""
+		case <-deadline:
+			return nil, false, fmt.Sprintf("did not return within %s", max)
+		case <-tick.C:
+			dump, uncertain := c13DumpU(&buf)
+			var sig []string
+			all := len(dump) > 0 && !uncertain
+			for _, gi := range dump {
+				if !gi.waiting {
+					all = false
+				}
+				sig = append(sig, fmt.Sprintf("g%d[%s]", gi.gid, gi.state))
+			}
+			cur := strings.Join(sig, ",")
+			if all && cur == last {
+				same++
+			} else {
+				same = 0
+			}
+			last = cur
+			if all && same >= 3 {
+				// the goroutines stay behind: later controlled runs must ignore them
+				c13LeakMu.Lock()
+				for _, gi := range dump {
+					c13Leaked[gi.gid] = true
+				}
+				c13LeakMu.Unlock()
+				return nil, false, "deadlock: every goroutine of the traversal is blocked: " + cur
+			}
+			tick.Reset(50 * time.Millisecond)
+		}
 	}
 }
